@@ -20,15 +20,15 @@ import (
 // ---- configuration shared by the sequential and the concurrent part ----
 
 type cfgT struct {
-	raw    string
-	layer  string // tq | bloom | both (both = public CachedBlockstore)
-	tq     int
-	bh     int // bloom hash locations
-	view   bool
-	errer  bool // base implements AllKeysChanWithErrer
-	pre    []string
-	build  enumFault // how the initial build's enumeration ends
-	live   bool      // base enumeration is a lazy walk, not a snapshot
+	raw   string
+	layer string // tq | bloom | both (both = public CachedBlockstore)
+	tq    int
+	bh    int // bloom hash locations
+	view  bool
+	errer bool // base implements AllKeysChanWithErrer
+	pre   []string
+	build enumFault // how the initial build's enumeration ends
+	live  bool      // base enumeration is a lazy walk, not a snapshot
 }
 
 func parseCfg(s string) cfgT {
@@ -246,7 +246,9 @@ func answerClass(res string) string {
 type sys struct {
 	in        *inst
 	model     map[string][]byte
-	lastFault string // most recent fault that fired on this path ("" none)
+	lastFault string          // most recent mutator fault that fired on this path ("" none)
+	lastKeys  map[string]bool // keys named by that failed call
+	truncated bool            // an enumeration of this path was cut short (initial build or Rebuild)
 	thorough  bool
 	r         *eng.Run
 }
@@ -261,6 +263,9 @@ func newSys(cfg string, thorough bool, r *eng.Run) eng.Sys {
 		s.in.status.Wait(context.Background())
 	}
 	s.in.f.cancelFn = nil
+	if c.layer != "tq" && (c.build.kind == "err" || c.build.kind == "cancel") {
+		s.truncated = true
+	}
 	return s
 }
 
@@ -332,9 +337,11 @@ func copyMap(m map[string][]byte) map[string][]byte {
 	return o
 }
 
-func (s *sys) feats(op, fspec string, extra ...string) []string {
-	f := []string{"layer", s.in.cfg.layer, "fault", faultKind(fspec), "earlier_fault", s.lastFault,
-		"build", s.in.cfg.build.kind, "errer", fmt.Sprint(s.in.cfg.errer), "viewer", fmt.Sprint(s.in.cfg.view)}
+// feats: k is the cache key the failing observation is about ("" = none).
+func (s *sys) feats(k, fspec string, extra ...string) []string {
+	f := []string{"layer", s.in.cfg.layer, "fault", faultKind(fspec), "earlier_failed_write", s.lastFault,
+		"key_named_by_failed_write", fmt.Sprint(s.lastKeys[k]),
+		"truncated_enumeration", fmt.Sprint(s.truncated), "errer", fmt.Sprint(s.in.cfg.errer), "viewer", fmt.Sprint(s.in.cfg.view)}
 	return append(f, extra...)
 }
 
@@ -391,21 +398,25 @@ func (s *sys) Do(op string) (string, *eng.Violation) {
 	if fired {
 		obs += "(fault)"
 	}
+	fk := ""
+	if len(es) > 0 && es[0].c.Defined() {
+		fk = key(es[0].c)
+	}
 	if cidBad != "" {
-		return obs, eng.V("get-wrong-cid", name, fmt.Sprintf("%s returned a block with CID %s", op, cidBad), s.feats(op, fspec)...)
+		return obs, eng.V("get-wrong-cid", name, fmt.Sprintf("%s returned a block with CID %s", op, cidBad), s.feats(fk, fspec)...)
 	}
 	switch name {
 	case "Has", "Get", "GetSize", "View":
 		if fired {
 			if res != "err:injected" {
-				return obs, eng.V("base-error-swallowed", name, fmt.Sprintf("%s: the base store call failed but the cache layer answered %q", op, res), s.feats(op, fspec)...)
+				return obs, eng.V("base-error-swallowed", name, fmt.Sprintf("%s: the base store call failed but the cache layer answered %q", op, res), s.feats(fk, fspec)...)
 			}
 			return obs, nil
 		}
 		w := want(s.model, name, es[0])
 		if res != w {
 			return obs, eng.V("read-mismatch", name, fmt.Sprintf("%s = %q, uncached store answers %q (model %s; cache %s)", op, res, w, s.modelStr(), s.cacheStr()),
-				s.feats(op, fspec, "want", answerClass(w), "got", answerClass(res))...)
+				s.feats(fk, fspec, "want", answerClass(w), "got", answerClass(res))...)
 		}
 		return obs, nil
 	}
@@ -418,7 +429,7 @@ func (s *sys) Do(op string) (string, *eng.Violation) {
 	}
 	if !fired {
 		if res != "ok" {
-			return obs, eng.V("mutator-error", name, fmt.Sprintf("%s returned %q without any base-store failure", op, res), s.feats(op, fspec)...)
+			return obs, eng.V("mutator-error", name, fmt.Sprintf("%s returned %q without any base-store failure", op, res), s.feats(fk, fspec)...)
 		}
 		for k, e := range touched {
 			if name == "Delete" {
@@ -430,8 +441,12 @@ func (s *sys) Do(op string) (string, *eng.Violation) {
 		return obs, nil
 	}
 	s.lastFault = name + "!" + faultKind(fspec)
+	s.lastKeys = map[string]bool{}
+	for k := range touched {
+		s.lastKeys[k] = true
+	}
 	if res != "err:injected" {
-		return obs, eng.V("base-error-swallowed", name, fmt.Sprintf("%s: the base store call failed but the cache layer returned %q", op, res), s.feats(op, fspec)...)
+		return obs, eng.V("base-error-swallowed", name, fmt.Sprintf("%s: the base store call failed but the cache layer returned %q", op, res), s.feats(fk, fspec)...)
 	}
 	// A failed mutation leaves an unspecified subset of its effects: resolve
 	// the model from the base store, after checking that nothing else moved.
@@ -442,7 +457,7 @@ func (s *sys) Do(op string) (string, *eng.Violation) {
 			continue
 		}
 		if bok != mok || string(bv) != string(mv) {
-			return obs, eng.V("base-diverged", name, fmt.Sprintf("%s (failed): untouched key %s differs between base store and model", op, nameOfKey(k)), s.feats(op, fspec)...)
+			return obs, eng.V("base-diverged", name, fmt.Sprintf("%s (failed): untouched key %s differs between base store and model", op, nameOfKey(k)), s.feats(k, fspec)...)
 		}
 	}
 	s.model = copyMap(f.m)
@@ -460,6 +475,9 @@ func (s *sys) rebuild(fspec string) string {
 		cancel()
 	default:
 		f.enums = []enumFault{parseEnumFault(fspec)}
+		if k := f.enums[0].kind; k == "err" || k == "cancel" {
+			s.truncated = true
+		}
 	}
 	err := s.in.status.Rebuild(ctx)
 	f.enums = nil
@@ -499,7 +517,7 @@ func (s *sys) Check() *eng.Violation {
 		bv, bok := f.m[k]
 		mv, mok := s.model[k]
 		if bok != mok || string(bv) != string(mv) {
-			return eng.V("base-diverged", "", fmt.Sprintf("key %s: base store has=%v, model has=%v (cache %s)", nameOfKey(k), bok, mok, s.cacheStr()), s.feats("", "")...)
+			return eng.V("base-diverged", "", fmt.Sprintf("key %s: base store has=%v, model has=%v (cache %s)", nameOfKey(k), bok, mok, s.cacheStr()), s.feats(k, "")...)
 		}
 	}
 	if len(f.m) != len(s.model) {
@@ -509,12 +527,16 @@ func (s *sys) Check() *eng.Violation {
 	for _, rd := range []string{"Has", "GetSize", "Get", "View"} {
 		for _, e := range observe {
 			res, cidBad := call(s.in.top, rd, []entry{e}, false)
+			ek := ""
+			if e.c.Defined() {
+				ek = key(e.c)
+			}
 			if cidBad != "" {
-				return eng.V("get-wrong-cid", rd, fmt.Sprintf("%s %s returned a block with CID %s", rd, e.name, cidBad), s.feats("", "")...)
+				return eng.V("get-wrong-cid", rd, fmt.Sprintf("%s %s returned a block with CID %s", rd, e.name, cidBad), s.feats(ek, "")...)
 			}
 			if w := want(s.model, rd, e); res != w {
 				return eng.V("read-mismatch", rd, fmt.Sprintf("after the sequence: %s %s = %q, uncached store answers %q (model %s; cache before the reads %s)", rd, e.name, res, w, s.modelStr(), cs),
-					s.feats("", "", "want", answerClass(w), "got", answerClass(res))...)
+					s.feats(ek, "", "want", answerClass(w), "got", answerClass(res))...)
 			}
 		}
 	}
